@@ -1,7 +1,7 @@
 """S-expression reader/printer for risinglight's plan language (egg RecExpr Display form)."""
 import re
 
-_TOK = re.compile(r"\(|\)|'(?:[^']|'')*'|[^\s()]+")
+_TOK = re.compile(r"""\(|\)|'(?:[^']|'')*'|"(?:[^"\\]|\\.)*"|[^\s()]+""")
 
 
 def parse(s):
